@@ -7,7 +7,10 @@ The state of a Go `Tokenizer` is the list of live tokenizer values: the outermos
 
 * with a nested tokenizer, its `Scan` comes first; any token but 0 is handed up, on 0 the nested tokenizer is dropped;
 * then the tokenizer scans its own input (`scanCore`); a terminated `/*! … */` installs a nested tokenizer over the
-  inner text (`NewStringTokenizer`, i.e. the DEFAULT dialect `dd`) and re-enters `Scan`.
+  inner text (`NewStringTokenizer`, i.e. the DEFAULT dialect `dd`) and `Scan` starts over (Go: `scanToken` returns
+  `rescan` and the loop in `Scan` runs it again; before the repair of repo-patches 61 it was a recursive call
+  `return tkn.Scan()` – the same function of the state, but one stack frame pair per comment. Stack depth is not
+  visible in this model; it is tied by the harness oracle `C14.tokdepth` and the facts `scanLoopShape`/`rescanIsNegative`).
 
 All three recursive calls decrease `mu`, the number of bytes left in all live tokenizers (+1 each); `lex` (the parser's
 `Lex`, which skips comments) and `tokenize` (`for { tok := Scan(); if tok == 0 break }`) decrease it too because a
